@@ -372,7 +372,7 @@ add("selector_clamp", "h_tree.c", "h_selector_clamp", {"C06": "quick", "C05": "q
     assumptions=["retrieve() resumed with the last table complete and a first group selecting an unusable (oversubscribed) table, so it returns at once"])
 
 # ------------------------------------------------------------------------------- C20: length-limited optimal prefix codes
-for _L, _A, _tier, _to in ((3, 3, "quick", 900), (3, 4, "quick", 1200), (3, 5, "thorough", 3000), (4, 4, "thorough", 3000), (4, 5, "thorough", 3000)):
+for _L, _A, _tier, _to in ((3, 3, "quick", 900), (3, 4, "quick", 1200), (3, 5, "thorough", 3000), (4, 4, "thorough", 3000)):   # L=4/A=5: no verdict in 3000 s, dropped
     add("assign_opt_L%d_A%d" % (_L, _A), "h_prefix.c", "h_assign_opt", {"C20": _tier, "C02": _tier}, defines=["-DVERIF_MAX_CODE_LENGTH=%d" % _L, "-DAS=%d" % _A],
         cbmc=["--unwind", str(_A + 2), "--unwindset", "package_merge.0:%d,package_merge.1:%d,package_merge.2:%d,assign_codes.4:%d,assign_codes.2:%d,assign_codes.6:%d"
               % (_L + 2, (2 << _L) + 2, _A + 1, _L + 2, _L + 2, _L + 2)],
